@@ -207,6 +207,23 @@ def gen_cases(rng, tier):
         for _ in range(2 * n):
             recs = [_gen_rec(r, pair[0])] + [_gen_rec(r, r.choice(pair)) for _ in range(r.randint(1, 3))] + [_gen_rec(r, pair[1])]
             cases.append({"kind": "seq", "recs": recs, "stop": not r.chance(30)})
+    # grouped records handed to the writer (all groups are instances of ONE class, whatever they group): a group is
+    # either refused or written with every one of its values; groups of different flat types are mixed record types
+    r = rng.fork("grpseq")
+    PA = ["t/host", [["string", "hostname"]]]
+    PB = ["t/port", [["varint", "port"]]]
+    PC = ["t/user", [["string", "user"], ["varint", "uid"]]]
+    G0 = {"_generated": ["dt", [2020, 1, 2, 3, 4, 5, 0], "utc", 0]}
+    mk = {"a": lambda i: ["rec", PA, [V.S("h%d" % i)], G0], "b": lambda i: ["rec", PB, [V.I(1000 + i)], G0],
+          "c": lambda i: ["rec", PC, [V.S("u%d" % i), V.I(i)], G0]}
+    for _ in range(6 * n):
+        shapes = [r.choice(["ab", "a", "ac", "cb", "abc", "ba"]) for _ in range(r.randint(2, 4))]
+        if len(set(shapes)) == 1:
+            shapes[-1] = "ac" if shapes[0] != "ac" else "ab"
+        recs = [["grouped", "grp/avro", [mk[ch](10 * i + j) for j, ch in enumerate(sh)]] for i, sh in enumerate(shapes)]
+        if r.chance(30):
+            recs.insert(r.below(len(recs) + 1), mk["c"](99))
+        cases.append({"kind": "grpseq", "recs": recs})
     r = rng.fork("jtype")
     for _ in range(120 * n):
         cases.append({"kind": "jtype", "type": _gen_jtype(r)})
@@ -310,6 +327,31 @@ def run_real(case):
             except Exception as e:
                 obs[key] = {"error": _err(e)}
         return obs
+    if k == "grpseq":
+        tmp = tempfile.mkdtemp(prefix="frv-c19-")
+        try:
+            path = os.path.join(tmp, "out.avro")
+            recs = [V.build(spec) for spec in case["recs"]]
+            obs = {"errs": []}
+            w = RecordWriter("avro://" + path)
+            for rec in recs:
+                try:
+                    w.write(rec)
+                    obs["errs"].append(None)
+                except Exception as e:          # noqa: BLE001
+                    obs["errs"].append(_err(e))
+            try:
+                w.close()
+            except Exception as e:              # noqa: BLE001
+                obs["close"] = _err(e)
+            try:
+                with open(path, "rb") as fp:
+                    obs["rows"] = [{kk: _val(vv) for kk, vv in o.items()} for o in fastavro.reader(fp)]
+            except Exception as e:              # noqa: BLE001
+                obs["rows"] = {"error": _err(e)}
+            return obs
+        finally:
+            shutil.rmtree(tmp, ignore_errors=True)
     if k == "seq":
         tmp = tempfile.mkdtemp(prefix="frv-c19-")
         try:
@@ -438,8 +480,44 @@ def _leaves_garbage(case, obs):
     return False
 
 
+def _flat(spec):
+    """(type key, {field: declared token}) of a plain or grouped record spec - from the case alone"""
+    members = spec[2] if spec[0] == "grouped" else [spec]
+    fields, vals = [], {}
+    for m in members:
+        for (t, n), v in zip(m[1][1], m[2]):
+            if n not in vals:
+                fields.append((t, n))
+                vals[n] = ["str", v[1]] if v[0] == "str" else ["int", str(int(v[1]))]
+    return ((spec[1] if spec[0] == "grouped" else spec[1][0]), tuple(fields)), vals
+
+
+def _oracle_grpseq(case, obs):
+    if "close" in obs:
+        return f"close() raised {obs['close']['cls']}: {obs['close']['msg']}"
+    rows = obs["rows"]
+    if isinstance(rows, dict):
+        return f"the file is not readable: {rows['error']}"
+    accepted = [(i, _flat(spec)) for i, (spec, e) in enumerate(zip(case["recs"], obs["errs"])) if e is None]
+    if accepted:
+        t0 = accepted[0][1][0]
+        for i, (tk, _) in accepted[1:]:
+            if tk != t0:
+                return (f"record {i} of flat type {tk} was accepted by a writer whose schema was made for {t0}: mixed record "
+                        f"types are not refused")
+    if len(rows) != len(accepted):
+        return f"{len(accepted)} records were accepted, the file holds {len(rows)}"
+    for (i, (_, vals)), row in zip(accepted, rows):
+        for n, tok in vals.items():
+            if row.get(n) != tok:
+                return f"accepted record {i}: field {n} was handed over as {tok}, the file holds {row.get(n)}"
+    return None
+
+
 def oracle(case, obs):
     k = case["kind"]
+    if k == "grpseq":
+        return _oracle_grpseq(case, obs)
     if k == "jtype":
         return None
     if k == "schema":
@@ -598,6 +676,8 @@ def nontrivial(case, obs):
         return len(case["desc"][1]) == 0 or "/" in case["desc"][0] or "error" in obs
     if k == "seq":
         return len(case["recs"]) > 0
+    if k == "grpseq":
+        return True
     return False
 
 
@@ -623,10 +703,18 @@ def classify(case, obs):
             out.append("seq:refusal-leaves-garbage")
         if "fast" in obs and "error" in obs["fast"]:
             out.append("seq:unreadable")
+    elif k == "grpseq":
+        for e in obs.get("errs", []):
+            out.append("grpseq:write:" + ("ok" if e is None else e["cls"]))
     return out
 
 
 def shrink(case):
+    if case["kind"] == "grpseq":
+        for i in range(len(case["recs"])):
+            if len(case["recs"]) > 1:
+                yield dict(case, recs=case["recs"][:i] + case["recs"][i + 1:])
+        return
     if case["kind"] == "seq":
         recs = case["recs"]
         for i in range(len(recs)):
